@@ -839,6 +839,11 @@ func runC04(c *Ctx) error {
 		if i%5 == 4 {
 			o.PUnknown, o.PLate = 0.25, 0.3
 		}
+		if i%3 == 1 {
+			// 32-bit extremes in the returned payload fields: time 0 / 2^31 / 2^32-1 / random, version min / max / random,
+			// nonce 0 / 2^32-1 / random - every endpoint must return them as stored
+			o.Extreme = true
+		}
 		if i%4 == 3 {
 			// any work: zero-work headers too (the _any_work theorems; the C01 model is faithful for them)
 			o.Positive, o.ZeroWork = false, true
